@@ -154,6 +154,16 @@ def run_history(case, ctx, sdir):
                     if [e for e in cv.errors if "SENTINEL" not in str(e.msg)]:
                         rec.violation("private/reset-validation-ran-default-rules", "", dict(case, upto=si))
                     cv.report()
+                    # a rule registered after the instance has already found issues is applied by the next report()
+                    def sentinel2(obj):
+                        from odml.validation import ValidationError, IssueID
+                        yield ValidationError(obj, "SENTINEL-2 late rule", "warning", IssueID.custom_validation)
+                    cv.register_custom_handler("section", sentinel2)
+                    cv.report()
+                    late = [e for e in cv.errors if "SENTINEL-2" in str(e.msg)]
+                    if len(late) != len(scope_secs):
+                        rec.violation("private/rule-registered-after-a-run-not-applied-by-report",
+                                      "%d of %d Sections" % (len(late), len(scope_secs)), dict(case, upto=si))
                     # the library's own rule functions registered on custom validations must be repeatable too
                     import odml.validation as ov
                     rules = {"odML": [ov.section_unique_ids, ov.document_unique_ids, ov.section_unique_name_type],
@@ -260,6 +270,17 @@ def doc_for(seed, i):
         doc = gen.build_doc(spec)
         muts = c08.gen_muts(rng, doc, rng.choice([0, 1, 2, 3]))
         c08.apply_muts(doc, muts)
+        # string values that several of the "might fit another dtype" hints match at once (line break = text, leading
+        # t / True = boolean, parenthesis = tuple, digits = int): which hint is given must not depend on the process
+        secs_ = list(doc.itersections())
+        if secs_:
+            import odml, uuid
+            for k_, vals_ in enumerate((["true\nline", "t\nx"], ["(1;2;3)\n(4;5;6)"], ["12\n13"], ["2020-01-02\n01:02:03"])):
+                try:
+                    odml.Property("ambiguous_text_%d" % k_, values=vals_, dtype="string", parent=secs_[i % len(secs_)],
+                                  oid=str(uuid.uuid5(uuid.NAMESPACE_DNS, "verif-ambiguous-%s-%d" % (doc.id, k_))))
+                except Exception:
+                    pass
     return doc
 
 
